@@ -351,6 +351,22 @@ def m_iter_position(M, a, c, fr):
         i += 1
 
 
+def m_iter_rposition(M, a, c, fr):
+    xs = drain(M, to_iter(M, a[0]))
+    for i in range(len(xs) - 1, -1, -1):
+        if M.concrete_bool(M.call_value(a[1], [xs[i]]), 'rposition'): return opt_some(BV64(i))
+    return opt_none()
+
+
+def m_vec_extend(M, a, c, fr):
+    v = M.load(a[0])
+    if not isinstance(v, VecV): raise Inconclusive('Vec::extend on %r' % (v,))
+    n = M.concrete(v.len, 'extend.len'); del v.elems[n:]
+    xs = drain(M, to_iter(M, a[1]))
+    v.elems.extend(xs); v.len = BV64(n + len(xs))
+    return []
+
+
 def m_iter_find(M, a, c, fr):
     while True:
         x = it_next(M, a[0])
@@ -1126,7 +1142,8 @@ MODELS = [
     (r'<.* as Iterator>::collect::<Vec<.*>>', m_collect_vec),
     (r'<.* as Iterator>::all::<.*>', m_iter_all),
     (r'<.* as Iterator>::any::<.*>', m_iter_any),
-    (r'<.* as Iterator>::position::<.*>', m_iter_position),
+    (r'<.* as Iterator>::position::<.*>', m_iter_position), (r'<.* as (Iterator|DoubleEndedIterator|ExactSizeIterator)>::rposition::<.*>', m_iter_rposition),
+    (r'<Vec<.*> as Extend<.*>>::extend::<.*>', m_vec_extend), (r'Vec::<.*>::extend_from_slice', m_vec_extend),
     (r'<.* as Iterator>::find::<.*>', m_iter_find),
     (r'<.* as Iterator>::last', m_iter_last),
     (r'<.* as Iterator>::count', m_iter_count),
